@@ -45,6 +45,9 @@ type frameCase struct {
 	// probe. -1: a short probe padded to the Ethernet minimum of 60 bytes (what arrives
 	// over a real Ethernet), k > 0: k trailer bytes, 0: the frame ends with the datagram.
 	ProbeTrailer int `json:"probe_trailer,omitempty"`
+	// Rest: before the probe is sent the harness waits until the receive loop has taken
+	// every frame and all handler / decoder goroutines are parked (or the child is gone)
+	Rest bool `json:"rest,omitempty"`
 }
 
 var (
@@ -161,6 +164,12 @@ func runCase(l cl.Local, c frameCase, wait time.Duration) (err error, infra erro
 		}
 		frames = append(frames, b)
 	}
+	if c.Rest {
+		if k.SendMany(frames) == nil {
+			k.Rest() // a loop that never comes to rest, or a dead child: the probe decides
+		}
+		frames = nil
+	}
 	if c.ProbeTrailer != 0 {
 		err := feedFramed(l, ch, k, frames, wait, c.ProbeTrailer)
 		if err != nil {
@@ -276,6 +285,7 @@ type sweeper struct {
 	tables string
 	seen   map[string]bool // violation signatures already reported
 	nviol  int
+	rest   bool // cases wait for the handler goroutines before the probe (frameCase.Rest)
 }
 
 func signature(msg string) string {
@@ -400,7 +410,7 @@ func (s *sweeper) real(frames [][]byte) {
 	if len(frames) == 0 || s.nviol >= 6 {
 		return
 	}
-	c := frameCase{Tables: s.tables, Frames: hexes(frames)}
+	c := frameCase{Tables: s.tables, Frames: hexes(frames), Rest: s.rest}
 	err, infra := runCase(s.l, c, 30*time.Second)
 	if infra != nil {
 		s.t.Fatalf("infra: %v", infra)
@@ -420,8 +430,8 @@ func (s *sweeper) real(frames [][]byte) {
 	}
 	// does either half fail on its own? otherwise the failure needs the whole history
 	h := len(frames) / 2
-	a := frameCase{Tables: s.tables, Frames: hexes(frames[:h])}
-	b := frameCase{Tables: s.tables, Frames: hexes(frames[h:])}
+	a := frameCase{Tables: s.tables, Frames: hexes(frames[:h]), Rest: s.rest}
+	b := frameCase{Tables: s.tables, Frames: hexes(frames[h:]), Rest: s.rest}
 	ea, infra := runCase(s.l, a, 30*time.Second)
 	if infra != nil {
 		s.t.Fatalf("infra: %v", infra)
